@@ -299,7 +299,17 @@ class Poly:
         return " + ".join(parts)
 
     # sympy-ish API used by the real code
-    def subs(self, mapping):
+    def subs(self, mapping, simultaneous=False):
+        # the substitution below replaces every variable once (simultaneously).  sympy's default is sequential: the two agree unless a
+        # replacement mentions a symbol that is itself a key of the mapping - that case is decided only when simultaneous=True was asked for
+        if not simultaneous:
+            keys = set()
+            for k in mapping:
+                if isinstance(k, Poly):
+                    keys |= set(k.variables())
+            for k, val in mapping.items():
+                if isinstance(val, Poly) and val.t != getattr(k, "t", None) and keys & set(val.variables()):
+                    raise Unsupported("sequential substitution whose replacements mention substituted symbols")
         out = Poly({})
         for m, (re, im) in self.t.items():
             term = Poly({(): (re, im)})
@@ -804,8 +814,8 @@ class SMat:
             out |= x.free_symbols
         return out
 
-    def subs(self, mapping):
-        return SMat(data=[[x.subs(mapping) for x in r] for r in self.m])
+    def subs(self, mapping, simultaneous=False):
+        return SMat(data=[[x.subs(mapping, simultaneous=simultaneous) for x in r] for r in self.m])
 
     def applyfunc(self, f):
         return SMat(data=[[_coerce_strict(f(x)) for x in r] for r in self.m])
